@@ -482,6 +482,35 @@ func genWalletFacts(repo string) (string, error) {
 		return "", err
 	}
 	fmt.Fprintf(&b, "def feeConditions : List String := %s\n", walletLeanStrList(tg.ifConds(fd.Body, func(*ast.IfStmt) bool { return true })))
+	// ---- blockchain/txbuilder: the "first quorum non-empty signatures" loop of both materialize methods
+	for _, spec := range [][3]string{{"blockchain/txbuilder/signature_witness.go", "SignatureWitness", "sigWitnessMaterialize"},
+		{"blockchain/txbuilder/rawtxsig_witness.go", "RawTxSigWitness", "rawTxSigWitnessMaterialize"}} {
+		wf, err := wparse(repo, spec[0])
+		if err != nil {
+			return "", err
+		}
+		fd, err = wf.fn("materialize", spec[1])
+		if err != nil {
+			return "", err
+		}
+		var shape []string
+		ast.Inspect(fd.Body, func(x ast.Node) bool {
+			switch st := x.(type) {
+			case *ast.ForStmt:
+				shape = append(shape, "for "+wf.str(st.Init)+"; "+wf.str(st.Cond)+"; "+wf.str(st.Post))
+			case *ast.RangeStmt:
+				shape = append(shape, "range "+wf.str(st.X))
+			case *ast.IfStmt:
+				shape = append(shape, "if "+wf.str(st.Cond))
+			case *ast.CallExpr:
+				shape = append(shape, "call "+wf.str(st.Fun))
+			case *ast.IncDecStmt:
+				shape = append(shape, wf.str(st))
+			}
+			return true
+		})
+		fmt.Fprintf(&b, "def %s : List String := %s\n", spec[2], walletLeanStrList(shape))
+	}
 	b.WriteString("\nend BytomModel.Gen.WalletFacts\n")
 	return b.String(), nil
 }
